@@ -6,7 +6,7 @@ import vlib
 from comp.slab import gen
 
 KINDS = {
-    "C01": {"overlap", "inside", "align", "size", "bookkeeping", "freelist", "sizeclass"},
+    "C01": {"overlap", "inside", "align", "size", "bookkeeping", "freelist", "sizeclass", "assert"},
     "C02": {"content", "footprint", "realloc", "nullop"},
     "C03": {"unmap", "pages", "poison", "poison-access"},
     "C04": {"mapfail"},
@@ -131,6 +131,9 @@ def run(c, focus="C01"):
         for o in ri["oracle"]:
             k, _, msg = o.partition(" ")
             orc(k, msg)
+        if "assert" in ri["lines"]:
+            # the generator only writes admissible histories: an FRG_ASSERT firing is a failure of C01's "never stops"
+            orc("assert", "an FRG_ASSERT of the pool fired on an admissible history (after %d output lines)" % ri["lines"].index("assert"))
         if rm is None:
             if drv:
                 c.mismatch(cid, lines, "model produced no output")
